@@ -170,6 +170,24 @@ def gen_vmfields(man):
     imp_lookup = ("modules", "get") in self_field_calls(vm, o + 1, c)
     imp_flag = find_seq(vm, [".", "imported"], o, c) >= 0
     imp_circular = any(t.kind == "str" and "Circular dependency" in t.text for t in vm[o:c])
+    # registry-hit branch: "Circular dependency" only under `self.is_loading_module(..)`, otherwise the dead entry is removed
+    # (`self.modules.remove(..)`) and the function goes on to load the module (no `return` between the remove and the loader call)
+    calls = self_calls(vm, o + 1, c)
+    rm = find_seq(vm, ["self", ".", "modules", ".", "remove", "("], o, c)
+    ld = find_seq(vm, ["self", ".", "module_loader"], o, c)
+    cond = find_seq(vm, ["if", "self", ".", "is_loading_module", "("], o, c)
+    msg_at = next((j for j in range(o, c) if vm[j].kind == "str" and "Circular dependency" in vm[j].text), -1)
+    guarded = False
+    if cond >= 0 and msg_at >= 0:
+        bo, bc = body_after(vm, cond)
+        guarded = bo < msg_at < bc
+    imp_reloads = ("is_loading_module" in calls and guarded and 0 <= rm < ld
+                   and not any(vm[j].text == "return" for j in range(rm, ld)))
+    try:
+        lo_, lc_ = fn_body(vm, "is_loading_module", impl)
+        walks_chain = find_seq(vm, [".", "caller"], lo_, lc_) >= 0 and find_seq(vm, [".", "frames"], lo_, lc_) >= 0
+    except ValueError:
+        walks_chain = False
     o, c = fn_body(vm, "finish_import_impl", impl)
     fin_sets = find_seq(vm, [".", "imported", "=", "true"], o, c) >= 0
     # ObjFiber fields (what a dead fiber may still hold)
@@ -218,6 +236,8 @@ def gen_vmfields(man):
              "Definition start_import_looks_up_modules_src : bool := %s." % b(imp_lookup),
              "Definition start_import_tests_imported_src : bool := %s." % b(imp_flag),
              "Definition start_import_circular_message_src : bool := %s." % b(imp_circular),
+             "(* a registered, not yet imported module that is not executing is removed and loaded afresh (367eb72) *)",
+             "Definition start_import_reloads_dead_src : bool := %s." % b(imp_reloads and walks_chain),
              "Definition finish_import_sets_imported_src : bool := %s." % b(fin_sets), "",
              "(* struct ObjFiber *)",
              "Definition fiber_fields_src : list string := %s." % coq_list(fiber_fields), "",
